@@ -145,7 +145,20 @@ def typing(g, obj, cfg, seed=7):
     except Exception as exc:
         if type(exc).__name__ == "FfAssignmentError":
             part = getattr(exc, "incomplete_ff_dict", None)
-            return ["assignment-error", None if part is None else len(part), getattr(exc, "mol", None) is not None]
+            emol = getattr(exc, "mol", None)
+            per_atom = []
+            if isinstance(part, dict) and emol is not None:
+                for idx, prm in part.items():
+                    try:
+                        z = emol.GetAtomWithIdx(int(idx)).GetAtomicNum()
+                    except Exception:
+                        z = -1
+                    if hasattr(prm, "mass") and hasattr(prm, "sigma"):
+                        per_atom.append([z, [round(prm.mass, 4), prm.bond_type_name, round(prm.charge, 4), round(prm.sigma, 6), round(prm.epsilon, 6)]])
+                    else:
+                        per_atom.append([z, "not-a-parameter-set:" + type(prm).__name__])
+            return ["assignment-error", None if part is None else len(part), emol is not None, sorted(per_atom, key=str),
+                    None if emol is None else emol.GetNumAtoms()]
         return ["raises", type(exc).__name__]
 
 
